@@ -1,12 +1,12 @@
 #!/bin/bash
-# processes /tmp/seed/queue.txt ("<prop> <out_dir> <id>" per line) one at a time; polls for new lines
+# processes ${SEED_QUEUE:-/tmp/seed/queue.txt} ("<prop> <out_dir> <id>" per line) one at a time; polls for new lines
 cd /verif
 while true; do
   while read -r prop dir id; do
     [ -z "$prop" ] && continue
     [ -f "seeded/$id/meta.json" ] && continue
     python3 tools/confirm_seeded.py "$prop" "$dir" "$id" >> /tmp/seed/confirm.log 2>&1
-  done < /tmp/seed/queue.txt
+  done < ${SEED_QUEUE:-/tmp/seed/queue.txt}
   [ -f /tmp/seed/queue.stop ] && break
   sleep 60
 done
